@@ -170,7 +170,19 @@ type nativeResult struct {
 func runNative(bin, replayFile string, timeout time.Duration) nativeResult {
 	ctx, cancel := context.WithTimeout(context.Background(), timeout)
 	defer cancel()
+	if abs, err := filepath.Abs(replayFile); err == nil {
+		replayFile = abs
+	}
+	if abs, err := filepath.Abs(bin); err == nil {
+		bin = abs
+	}
 	cmd := exec.CommandContext(ctx, bin, replayFile)
+	// the real code may create files relative to its working directory or HYDRAIDE_ROOT_PATH
+	// (settings.New does): keep them in the scratch directory
+	if wd := filepath.Join(scratch(), "cwd"); os.MkdirAll(wd, 0o755) == nil {
+		cmd.Dir = wd
+		cmd.Env = append(os.Environ(), "HYDRAIDE_ROOT_PATH="+wd)
+	}
 	var buf bytes.Buffer
 	cmd.Stdout = &buf
 	cmd.Stderr = &buf
